@@ -18,16 +18,30 @@ Definition text_of (n : node) : bytes :=
 Definition renders_text (n : node) : bool :=
   match n with NText s => negb (is_nil s) | NBlock _ => true | _ => false end.
 
+(** no <script> anywhere below an SVG / MathML element: the macro resolves [a], [script] and [title] by the
+    namespace of the parent (and only for an only child), and [svg::script] escapes its text where
+    [html::script] and the inert path do not — finding F-C18-j, compared by the harness only; the model
+    reads every [script] as the HTML raw-text element *)
+Definition k_script : bytes := Eval vm_compute in bs "script".
+Fixpoint no_script (n : node) : bool :=
+  match n with
+  | NElem tag _ ch => negb (beq tag k_script) && forallb no_script ch
+  | NFrag ch => forallb no_script ch
+  | _ => true
+  end.
+Definition no_foreign_script (tag : bytes) (ch : list node) : bool :=
+  if mem tag macro_svg || mem tag macro_mathml then forallb no_script ch else true.
+
 (** Names are readable, no components, no obsolete <param>; a block never evaluates to the empty
     string; void elements are empty; raw-text elements contain only text without "</"; title
-    contains only text. *)
+    contains only text; no <script> below SVG / MathML. *)
 Fixpoint wf_node (n : node) : bool :=
   match n with
   | NText _ => true
   | NBlock s => negb (is_nil s)
   | NFrag ch => forallb wf_node ch
   | NElem tag attrs ch =>
-      name_okb tag && negb (is_component tag) && negb (beq tag k_param)
+      name_okb tag && no_foreign_script tag ch && negb (is_component tag) && negb (beq tag k_param)
       && forallb wf_attr attrs && forallb wf_node ch
       && (if mem tag html_void then is_nil ch else true)
       && (if mem tag parser_raw then forallb is_textish ch && no_lt_slash (flat_map text_of ch) else true)
@@ -205,7 +219,7 @@ Proof.
   induction n as [s|s|tag attrs ch IH|ch IH] using node_ind'; unfold inert_ok; intros Hw Hn Hs k cur.
   - cbn [inert_node dn]. apply feed_enc_text.
   - discriminate.
-  - cbn [wf_node] in Hw. do 7 (apply andb_true_iff in Hw as [Hw ?]).
+  - cbn [wf_node] in Hw. do 8 (apply andb_true_iff in Hw as [Hw ?]).
     rename H into Hrc, H0 into Hraw, H1 into Hvoid, H2 into Hwch, H3 into Hwat, H4 into Hpar, H5 into Hcomp.
     apply negb_true_iff in Hpar.
     cbn [all_static] in Hs. apply andb_true_iff in Hs as [Hs Hsch]. apply andb_true_iff in Hs as [_ Hsat].
@@ -324,7 +338,7 @@ Proof.
     + cbn [fst]. apply andb_true_iff in Ei as [_ Ei]. unfold is_inert_element in Ei.
       apply andb_true_iff in Ei as [_ Es]. now apply inert_node_ok.
     + clear Ei. cbn [fst].
-      cbn [wf_node] in Hw. do 7 (apply andb_true_iff in Hw as [Hw ?]).
+      cbn [wf_node] in Hw. do 8 (apply andb_true_iff in Hw as [Hw ?]).
       rename H into Hrc, H0 into Hraw, H1 into Hvoid, H2 into Hwch, H3 into Hwat, H4 into Hpar, H5 into Hcomp.
       apply negb_true_iff in Hpar.
       cbn [nta] in Hn. apply andb_true_iff in Hn as [Hnt Hnch].
